@@ -109,17 +109,32 @@ def run(ctx):
             break
     m, il = ctx.differential("unit_btcp", "btcp", exe_b, allops, label="btcp random")
     mon_b.run(allops, il)
-    ctx.assumptions += ["btls (process_ssl_event classification, TLS handshake failures) and the connect-phase errno "
-                        "selection inside tconnect.c are not part of this check; ux is not part of this check",
-                        "peer death at every byte offset is represented at the framing layer by EOF/errno after k arrived bytes"]
+    ctx.assumptions += ["the connect-phase errno selection inside tconnect.c is C13's subject",
+                        "peer death at every byte offset is represented at the framing layer by EOF/errno after k arrived bytes, and "
+                        "on live tcp/btcp connections by a raw peer cut at every byte offset (sys_fault CUT)",
+                        "sys_fault INJ: after the injected errno the descriptor answers as Linux does once the error was consumed "
+                        "(recv 0, send EPIPE); which errno a local-socket transport reports is not fixed by the statement"]
     # the TLS connection machine (xcm_tp_btls.c) against the Lean Btls model, with its monitors
     from gen import btls as _btls
     _btls.run_part(ctx, 40 if ctx.tier == "quick" else 2000, exhaustive=True)
     ctx.rule += (" unit_btls: the real xcm_tp_btls.c with scripted OpenSSL answers vs the Lean Btls model: every OpenSSL event x first observer x state x verdict, conn_update for every reachable (state, ssl_condition, ssl_wants) x condition x SSL_has_pending, seeded random histories; stickiness/discoverer/rc-range/gating monitors.")
+    # live connections of every transport
+    from gen import fault as _fault
+    _fault.run_part(ctx)
+    ctx.rule += (" sys_fault (live sockets, all seven transports): INJ - one send()/recv() below XCM or below OpenSSL fails with "
+                 "each errno at each call index of a mixed traffic scenario, the descriptor then answers like Linux after the error "
+                 "was consumed; the XCM call that was running must report that errno and every later send/receive/finish the same "
+                 "(closed: receive 0, send EPIPE; local-socket transports: nothing succeeds again). CUT - a raw TCP peer writes the "
+                 "first n bytes of a five-frame wire stream (tcp) or byte stream (btcp), every n, then FIN or RST, before or after "
+                 "XCM started reading: only complete messages are delivered, all of them before an orderly close is reported. KILL - "
+                 "a forked XCM peer is SIGKILLed after 0..80 ms (handshake, mid-message, between messages) or closes after n messages.")
 
 
 def replay(path):
     r = json.load(open(path))
+    if r.get("harness") == "sys_fault":
+        from gen import fault as _fault
+        return _fault.replay(r)
     if r.get("harness") == "unit_btls":
         from gen import btls as _btls
         return _btls.replay(r)
